@@ -279,7 +279,17 @@ pub fn run_cache(case: &CacheCase) -> Verdict {
     sim::run_case(interp(case))
 }
 
-type Svc = tower_resilience_cache::Cache<Scripted, Req, u32, Resp>;
+/// Cache key whose `Hash` is coarser than its `Eq` (only the lowest bit is hashed), as the `Hash`
+/// contract allows: unequal keys collide all the time and only `Eq` tells them apart.
+#[derive(Clone, Copy, Debug, PartialEq, Eq)]
+pub struct CKey(pub u32);
+impl std::hash::Hash for CKey {
+    fn hash<H: std::hash::Hasher>(&self, h: &mut H) {
+        (self.0 & 1).hash(h)
+    }
+}
+
+type Svc = tower_resilience_cache::Cache<Scripted, Req, CKey, Resp>;
 
 async fn interp(case: &CacheCase) -> Verdict {
     let log = Log::new();
@@ -331,19 +341,19 @@ async fn interp(case: &CacheCase) -> Verdict {
         }};
     }
     let mut svcs: Vec<Svc> = if case.mode == 2 {
-        let b = SharedCacheLayer::<Req, u32, Resp>::builder();
+        let b = SharedCacheLayer::<Req, CKey, Resp>::builder();
         let layer = if case.setter_order & 8 != 0 {
-            settings!(b.key_extractor(|r: &Req| r.key)).build()
+            settings!(b.key_extractor(|r: &Req| CKey(r.key))).build()
         } else {
-            settings!(b).key_extractor(|r: &Req| r.key).build()
+            settings!(b).key_extractor(|r: &Req| CKey(r.key)).build()
         };
         vec![layer.layer(inner.clone()), layer.layer(inner.clone())]
     } else {
-        let b = CacheLayer::<Req, u32>::builder();
+        let b = CacheLayer::<Req, CKey>::builder();
         let layer = if case.setter_order & 8 != 0 {
-            settings!(b.key_extractor(|r: &Req| r.key)).build()
+            settings!(b.key_extractor(|r: &Req| CKey(r.key))).build()
         } else {
-            settings!(b).key_extractor(|r: &Req| r.key).build()
+            settings!(b).key_extractor(|r: &Req| CKey(r.key)).build()
         };
         let s = layer.layer(inner.clone());
         if case.mode == 1 {
